@@ -16,6 +16,9 @@ def dispatch(prop, tier, replay):
         if extra:
             extra(rep, tier)
         return rep.finish()
+    if prop in ("C04", "C09"):
+        from . import check_image
+        return check_image.check(prop, tier).finish()
     if prop == "C19":
         from . import check_c19
         return check_c19.check(tier).finish()
